@@ -139,6 +139,12 @@ def run(chk):
             m2.m_step_v([m2.e_step_v(X, y, per, n_acc, f_acc)])
             after = phase_v_marginal(m2, classes)
             chk.count(1, key=("V reassigned", rV))
+            # ... and exactly the E/M pair of a FRESH machine that was given the same U, V, D (nothing cached from the earlier phase)
+            m3 = fa.make_machine("jfa", copy.deepcopy(ubm), rU, rV, U=np.array(m.U), V=np.array(Vnew), Dv=np.array(m.D), em_iterations=iters, random_state=seed)
+            m3.m_step_v([m3.e_step_v(X, y, per, n_acc, f_acc)])
+            if not np.allclose(np.asarray(m2.V), np.asarray(m3.V), rtol=1e-9, atol=1e-12):
+                chk.fail("V phase after assigning a new V: the next E/M pair differs from that of a fresh machine with the same U, V, D (stale per-machine cache)",
+                         dict(ctx, phase="V", reassigned_V=hexlist(Vnew), got=hexlist(m2.V), fresh=hexlist(m3.V)))
             if not after >= before - tolr * max(1.0, abs(before)):
                 chk.fail("V phase after assigning a new V: the next EM iteration lowers the marginal likelihood %.12g -> %.12g" % (before, after),
                          dict(ctx, phase="V", reassigned_V=hexlist(Vnew)))
